@@ -20,7 +20,7 @@ Provides classes for generating and analyzing complex climate networks.
 #  Import essential packages
 #
 
-# import numpy as np
+import numpy as np
 
 from ..core._ext.types import to_cy, MASK, FIELD
 from ._ext.numerics import spearman_corr
@@ -270,6 +270,12 @@ class RainfallClimateNetwork(ClimateNetwork):
         :rtype: 2D Numpy array (index, index)
         :return: the Spearman correlation matrix.
         """
+        #  The compiled routine walks over both arrays with the shape of
+        #  anomaly: refuse a mask of another shape
+        if np.shape(final_mask) != np.shape(anomaly):
+            raise ValueError(
+                f"final_mask {np.shape(final_mask)} and anomaly "
+                f"{np.shape(anomaly)} must have the same shape")
         # Get rank time series
         time_series_ranked = self.rank_time_series(anomaly)
         m, tmax = anomaly.shape
